@@ -52,6 +52,7 @@ func c16Menu(w *mintops.W) []string {
 	if len(w.Keysets) < 2 {
 		ops = append(ops, "rotate|100")
 	}
+	ops = append(ops, "info")
 	return ops
 }
 
@@ -89,6 +90,14 @@ func c16Specs(quick bool) []*bfs.Spec {
 		)
 	}
 	var specs []*bfs.Spec
+	sfx0 := map[bool]string{true: "-q", false: ""}[quick]
+	// two quotes granted below the maximum and both paid: minting them lifts the balance ABOVE the maximum (the limit is
+	// only checked at quote time); every further quote must then be refused
+	specs = append(specs, &bfs.Spec{Prop: "C16", Name: "C16-overshoot" + sfx0, Cfg: mintops.Config{Fee: 0, Limits: mint.MintLimits{MaxBalance: 24}},
+		Init: []string{"fund|8", "fund|4,2,1,1", "mq|8", "mq|8", "settle|2", "settle|3"}, Menu: c16Menu, Probe: c16Probe, Depth: d})
+	// balance exactly at the maximum with a melt quote ready: info is read, the balance drops, info is read again
+	specs = append(specs, &bfs.Spec{Prop: "C16", Name: "C16-info-after-drop" + sfx0, Cfg: mintops.Config{Fee: 100, Limits: mint.MintLimits{MaxBalance: 16}},
+		Init: []string{"fund|8", "fund|4,2,1,1", "meltq|4"}, Menu: c16Menu, Probe: c16Probe, Depth: d - 1})
 	for _, c := range cfgs {
 		specs = append(specs, &bfs.Spec{Prop: "C16", Name: "C16-" + c.name + map[bool]string{true: "-q", false: ""}[quick], Cfg: mintops.Config{Fee: c.fee, Limits: c.l},
 			Init: []string{"fund|8", "fund|4,2,1,1"}, Menu: c16Menu, Probe: c16Probe, Depth: d})
